@@ -349,6 +349,9 @@ type TProg struct {
 	Plain   bool     `json:"plain"` // add a non-temporal consumer  cnt(X) :- t<last>(X)@[S,E].
 	NowDay  int      `json:"nowDay"`
 	HashSep bool     `json:"hashSep,omitempty"`
+	// Edges: temporal links tl(X, Y)@[day, day+len] for a recursive reachability program
+	// tr(X,Y)@[S,E] :- tl(X,Y)@[S,E].  tr(X,Z)@[S,E] :- tr(X,Y)@[S,E], tl(Y,Z)@[S,E].
+	Edges [][4]int `json:"edges,omitempty"`
 }
 
 func (tp TProg) preds() []string {
@@ -358,6 +361,9 @@ func (tp TProg) preds() []string {
 	}
 	if tp.Plain {
 		ps = append(ps, "cnt")
+	}
+	if len(tp.Edges) > 0 {
+		ps = append(ps, "tl", "tr")
 	}
 	return ps
 }
@@ -369,7 +375,18 @@ func (tp TProg) clauses(name func(string) string) (decls, clauses []string) {
 		if p == "cnt" {
 			continue
 		}
+		if p == "tl" || p == "tr" {
+			decls = append(decls, fmt.Sprintf("Decl %s(X, Y) temporal bound [/number, /number].", name(p)))
+			continue
+		}
 		decls = append(decls, fmt.Sprintf("Decl %s(X) temporal bound [/number].", name(p)))
+	}
+	for _, e := range tp.Edges {
+		clauses = append(clauses, fmt.Sprintf("%s(%d, %d)@[%s, %s].", name("tl"), e[0], e[1], day(e[2]), day(e[2]+e[3])))
+	}
+	if len(tp.Edges) > 0 {
+		clauses = append(clauses, fmt.Sprintf("%s(X, Y)@[S, E] :- %s(X, Y)@[S, E].", name("tr"), name("tl")))
+		clauses = append(clauses, fmt.Sprintf("%s(X, Z)@[S, E] :- %s(X, Y)@[S, E], %s(Y, Z)@[S, E].", name("tr"), name("tr"), name("tl")))
 	}
 	for _, f := range tp.Facts {
 		clauses = append(clauses, fmt.Sprintf("%s(%d)@[%s, %s].", name("t0"), f[0], day(f[1]), day(f[2])))
@@ -383,6 +400,8 @@ func (tp TProg) clauses(name func(string) string) (decls, clauses []string) {
 			clauses = append(clauses, fmt.Sprintf("%s(X)@[now] :- <-[0s, 40d] %s(X).", dst, src))
 		case "plus":
 			clauses = append(clauses, fmt.Sprintf("%s(Y)@[S, E] :- %s(X)@[S, E], Y = fn:plus(X, 10).", dst, src))
+		case "diamond-bind":
+			clauses = append(clauses, fmt.Sprintf("%s(X)@[S, E] :- <-[0d, 3d] %s(X)@[S, E].", dst, src))
 		case "join":
 			clauses = append(clauses, fmt.Sprintf("%s(X)@[S, E] :- %s(X)@[S, E], %s(X)@[S2, E2].", dst, src, name("t0")))
 		}
@@ -629,12 +648,37 @@ func genCase(t *rapid.T) Case {
 	if rapid.IntRange(0, 9).Draw(t, "kind") < 3 {
 		tp := TProg{Chain: rapid.IntRange(1, 3).Draw(t, "chain"), Plain: rapid.Bool().Draw(t, "plain"), NowDay: rapid.IntRange(1, 28).Draw(t, "now")}
 		for i := 0; i < tp.Chain; i++ {
-			tp.Shapes = append(tp.Shapes, rapid.SampledFrom([]string{"copy", "copy", "diamond", "plus", "join"}).Draw(t, "shape"))
+			tp.Shapes = append(tp.Shapes, rapid.SampledFrom([]string{"copy", "copy", "diamond", "diamond-bind", "plus", "join"}).Draw(t, "shape"))
 		}
-		nf := rapid.IntRange(1, 4).Draw(t, "nTFacts")
+		nf := rapid.IntRange(1, 5).Draw(t, "nTFacts")
 		for i := 0; i < nf; i++ {
 			a := rapid.IntRange(1, 20).Draw(t, "start")
-			tp.Facts = append(tp.Facts, [3]int{i + 1, a, a + rapid.IntRange(0, 7).Draw(t, "len")})
+			v := i + 1
+			if i > 0 && rapid.IntRange(0, 2).Draw(t, "sameAtom") == 0 {
+				// another interval for an earlier atom, often with the same start
+				prev := tp.Facts[rapid.IntRange(0, i-1).Draw(t, "prevFact")]
+				v = prev[0]
+				if rapid.Bool().Draw(t, "sameStart") {
+					a = prev[1]
+				}
+			}
+			tp.Facts = append(tp.Facts, [3]int{v, a, a + rapid.IntRange(0, 7).Draw(t, "len")})
+		}
+		if rapid.IntRange(0, 2).Draw(t, "reach") == 0 {
+			// layered graph with several equally long paths between nodes (duplicate derivations per round)
+			layers := rapid.IntRange(2, 5).Draw(t, "layers")
+			d0 := rapid.IntRange(1, 10).Draw(t, "edgeDay")
+			ln := rapid.IntRange(0, 3).Draw(t, "edgeLen")
+			for l := 0; l < layers; l++ {
+				width := rapid.IntRange(1, 2).Draw(t, "width")
+				for w := 0; w < width; w++ {
+					mid := 100*(l+1) + w
+					tp.Edges = append(tp.Edges, [4]int{l, mid, d0, ln}, [4]int{mid, l + 1, d0, ln})
+				}
+			}
+			if rapid.Bool().Draw(t, "edgeShuffle") {
+				tp.Edges = rapid.Permutation(tp.Edges).Draw(t, "edgePerm")
+			}
 		}
 		d, cl := tp.clauses(func(s string) string { return s })
 		c := Case{Temporal: &tp}
